@@ -21,6 +21,34 @@ from ..phases import AUTOMATION_OPS, OPERATIONS, automation_sites, fresh_facts, 
 from .c08 import discovered
 
 
+def control_conditions(fn, node):
+    """[(test, polarity)] of the if / while statements the node is nested in (control dependence)"""
+    out = []
+
+    def walk(stmts, acc):
+        for st in stmts:
+            if not any(n is node for n in ast.walk(st)):
+                continue
+            if isinstance(st, ast.If):
+                if any(n is node for b in st.body for n in ast.walk(b)):
+                    return walk(st.body, acc + [(st.test, True)])
+                if any(n is node for b in st.orelse for n in ast.walk(b)):
+                    return walk(st.orelse, acc + [(st.test, False)])
+                return acc
+            if isinstance(st, ast.While):
+                if any(n is node for b in st.body for n in ast.walk(b)):
+                    return walk(st.body, acc + [(st.test, True)])
+                return acc
+            if isinstance(st, (ast.For, ast.With, ast.Try)):
+                for fld in ('body', 'orelse', 'finalbody'):
+                    sub = getattr(st, fld, None) or []
+                    if any(n is node for b in sub for n in ast.walk(b)):
+                        return walk(sub, acc)
+            return acc
+        return acc
+    return walk(fn.body, out)
+
+
 def run(chk, ctx) -> None:
     ms = ctx.state.methods
     disc = discovered(ctx)
@@ -107,6 +135,68 @@ def run(chk, ctx) -> None:
                    'availability of the step is re-evaluated immediately before every automated call'
                    + (f'; `{T.show(fails[key])}` is stale' if key in fails else ''))
     chk.floor('C09.eager', 11)
+    # ... and nothing stronger: every atomic condition the automated call sits under (besides the membership test) is
+    # itself part of the operation's availability, so an available step is never left to the user
+    from ..phases import conjuncts
+    from ..paths import unversion
+    for name, fi in ms.items():
+        if not name.startswith('_update_'):
+            continue
+        for call in [n for n in walk_no_nested(fi.node) if isinstance(n, ast.Call) and self_attr(n.func) in disc]:
+            op = self_attr(call.func)
+            v, q = disc[op]
+            pp = [c for c, _ in phase_pre(ctx, v)]
+            allowed = set(pp)
+            for c in pp:
+                if c[0] == 'or':
+                    allowed |= set(c[1])
+            extra = []
+            for test, positive in control_conditions(fi.node, call):
+                t = T.cond(test)
+                if not positive:
+                    t = T.mk_not(t)
+                for c in conjuncts(t):
+                    if c[0] == 'or':
+                        continue      # the negated end-of-phase test (a disjunction) restricts nothing about this step
+                    if c[0] == 'in' and c[2] == ('self', 'automations'):
+                        continue
+                    if c in allowed:
+                        continue
+                    if c[0] == 'isnot' and ('const', None) in c[1]:
+                        other = [y for y in c[1] if y != ('const', None)][0]
+                        if other[0] == 'self' and other[1] in wrappers:
+                            continue
+                    if c[0] == 'mcall' and c[1] == ('name', 'self') and c[2] == q:
+                        continue
+                    extra.append(c)
+            chk.ob('C09.not_stronger', f'State.{name}:{op}', not extra, ctx.loc(fi, call),
+                   'the automated call is made whenever the step is available: the conditions it is nested under contain nothing beyond '
+                   'the availability of the operation (and the membership test)',
+                   got='extra condition: ' + '; '.join(sorted({T.show(c) for c in extra})) if extra else 'availability only')
+    chk.floor('C09.not_stronger', 11)
+    # ------------------------------- an operation is complete before automation continues from it
+    from .c07 import run as _c07_unused  # noqa: F401  (same module family)
+    from ..phases import OPERATIONS as _OPS
+    for op, (v, q) in disc.items():
+        if op not in _OPS:
+            continue
+        upd = _OPS[op][0]
+        of = ms[op]
+        bad = []
+        for p in ctx.paths(of):
+            if not p.returned:
+                continue
+            calls = [c for c in p.calls() if c.value == ('self', upd)]
+            if len(calls) != 1:
+                bad.append('the update step is not run exactly once')
+                continue
+            k = p.events.index(calls[0])
+            if any(e.kind == 'write' for e in p.events[k + 1:]):
+                bad.append('state is written after the update step (where the automated cascade runs)')
+        chk.ob('C09.effects_before_cascade', f'State.{op}', not bad, of.loc,
+               'every effect of an operation is applied before it hands over to the update step: the automated steps that run there '
+               'see the same state a manual user would see after the call returns', got=sorted(set(bad)))
+    chk.floor('C09.effects_before_cascade', 17)
     # ------------------------------------------------- operations never consult
     for op in disc:
         reach = {op} | ctx.eff.reach.get(op, set())
